@@ -12,7 +12,12 @@ CONSTANT N
 
 Paths  == StrUpTo({"a", DOT, SEP}, N)
 Exts   == {<<>>, <<DOT, "a">>}
-Others == {<<"a">>, <<"a", DOT, "a">>, <<"a", SEP, "a">>}
+\* right operands of operator+: plain, with dots, hidden, with a directory; empty, separator only, leading / trailing separator
+Others == {<<"a">>, <<"a", DOT, "a">>, <<"a", SEP, "a">>, <<DOT, "a">>,
+           <<>>, <<SEP>>, <<SEP, "a">>, <<"a", SEP>>}
+\* ... whose joined result is determined by the statement (the others depend on how separators are normalised:
+\* they are executed, and judged through the observed strings by C18Validate)
+ExactRight(g) == g # <<>> /\ g[1] # SEP /\ g[Len(g)] # SEP
 
 ASSUME LawsFile == \A f \in Paths : FileLaws(f)
 
@@ -20,26 +25,47 @@ Normal(f) == StripSep(f) = f
 NoExp == [ran |-> TRUE]     \* nothing constrained: the case is only executed
 J(s) == Join(s)
 
+\* both overloads (FileName / std::string right operand) give JoinNames; path() / base() are those of the result
+PlusExp(f, g) ==
+  IF Normal(f) /\ ExactRight(g)
+  THEN LET r == JoinNames(f, g) IN [res_fn |-> J(r), res_str |-> J(r), path |-> J(PathOf(r)), base |-> J(BaseOf(r))]
+  ELSE NoExp
+
 CasesOf(f) ==
   LET b == BaseOf(f)
       c == Cls(f) \o (IF Normal(f) THEN "" ELSE ",trailsep")
       det == Normal(f) /\ ~Special(b)       \* name / ext determined by the statement
   IN
      {[a |-> "FnSplit", arg |-> [s |-> J(f)], cls |-> c,
-       exp |-> IF Normal(f) THEN [str |-> J(f), path |-> J(PathOf(f)), base |-> J(b)] ELSE NoExp]}
+       exp |-> IF Normal(f) THEN [str |-> J(f), str_c |-> J(f), conv |-> J(f), cstr |-> J(f),      \* both constructors, both conversions
+                                  path |-> J(PathOf(f)), base |-> J(b)] ELSE NoExp]}
 \cup {[a |-> "FnNameExt", arg |-> [s |-> J(f)], cls |-> c,
        exp |-> IF det THEN [name |-> J(NameOf(f)), ext |-> J(ExtOf(f))] ELSE NoExp]}
 \cup {[a |-> "FnDropExt", arg |-> [s |-> J(f)], cls |-> c,
        exp |-> IF det THEN [res |-> J(DropExt(f))] ELSE NoExp]}
 \cup {[a |-> "FnSetExt", arg |-> [s |-> J(f), x |-> J(x)], cls |-> c,
-       exp |-> IF det THEN [res |-> J(SetExt(f, x))] ELSE NoExp] : x \in Exts}
+       exp |-> IF ~det THEN NoExp
+               ELSE IF x = <<>> THEN [res |-> J(SetExt(f, x)), res_default |-> J(SetExt(f, x))]      \* setExt() = setExt("")
+               ELSE [res |-> J(SetExt(f, x))]] : x \in Exts}
 \cup {[a |-> "FnAddExt", arg |-> [s |-> J(f), x |-> J(x)], cls |-> c,
-       exp |-> IF Normal(f) THEN [res |-> J(AddExt(f, x))] ELSE NoExp] : x \in Exts}
-\cup {[a |-> "FnPlus", arg |-> [s |-> J(f), o |-> J(g)], cls |-> c,
-       exp |-> IF Normal(f) /\ f # <<>>
-               THEN [res |-> J(Plus(f, g)), path |-> J(f \o <<SEP>> \o PathOf(g)), base |-> J(BaseOf(g))] ELSE NoExp] : g \in Others}
+       exp |-> IF ~Normal(f) THEN NoExp
+               ELSE IF x = <<>> THEN [res |-> J(AddExt(f, x)), res_default |-> J(AddExt(f, x))]      \* addExt() = addExt("")
+               ELSE [res |-> J(AddExt(f, x))]] : x \in Exts}
+\cup {[a |-> "FnPlus", arg |-> [s |-> J(f), o |-> J(g)], cls |-> PlusCls(StripSep(f), g), exp |-> PlusExp(f, g)] : g \in Others}
+\cup {[a |-> "FnRecompose", arg |-> [s |-> J(f)], cls |-> RecomposeCls(StripSep(f)),
+       \* FileName(path()) + base(), with either overload, is the name again
+       \* (names with separator runs or directly under the root: judged up to SameName by C18Validate)
+       exp |-> IF Normal(f) /\ Collapse(f) = f /\ RecomposeCls(f) # "path=root" THEN [res_fn |-> J(f), res_str |-> J(f)] ELSE NoExp]}
 
-Cases == UNION {CasesOf(f) : f \in Paths}
+\* the default-constructed (empty) name as left operand
+DefaultLeft == {[a |-> "FnPlus", arg |-> [s |-> "", o |-> J(g), dflt |-> TRUE], cls |-> PlusCls(<<>>, g), exp |-> PlusExp(<<>>, g)] : g \in Others}
+
+Cases == UNION {CasesOf(f) : f \in Paths} \cup DefaultLeft
+
+\* vacuity: the case set contains empty left operands (by "", by separators only) and single-component names
+ASSUME \E f \in Paths : f = <<>>
+ASSUME \E f \in Paths : f # <<>> /\ AllSeps(f)
+ASSUME \E f \in Paths : Normal(f) /\ f # <<>> /\ PathOf(f) = <<>> /\ Special(BaseOf(f))
 
 ASSUME Emit == ndJsonSerialize(IOEnv.OUT, SetToSeq(Cases))
 ===============================================================================
